@@ -662,6 +662,13 @@ fn construct(src: &str) -> &'static str {
         return "data-def";
     }
     let multi = src.trim_end_matches('\n').contains('\n');
+    // a binding item inside a function: "((|1 X=)o)"
+    if lines.iter().any(|l| match (l.find('('), l.find('←').or(l.find('='))) {
+        (Some(i), Some(j)) => i < j && !l[i..j].contains(')'),
+        _ => false,
+    }) {
+        return "binding-inside-function";
+    }
     // a code macro receives its operands as formatted source text
     if has("←^") || has("=^") || has("← ^") && has("!") && multi && false {
         return "code-macro-operand";
@@ -1461,6 +1468,24 @@ fn gen_program(r: &mut Rng) -> (String, Vec<&'static str>) {
 
 /// hand-written seeds: earlier counterexamples and the constructs of the property's quantifier
 const SEEDS: &[&str] = &[
+    "((|1 X=)o)\n",
+    "((|1!=)o)\n",
+    // end-of-line comments, their alignment and appended output comments (glyph map / padding repairs of round 3)
+    "1 # a\n22 ## \n333 # c\n",
+    "+1 2 ## 3\n4 # x\n",
+    "[1 2 3] ##\n[4 5] # c\n",
+    "⊃(+|-) 1 2 # é✨\n1 ##\n",
+    "1 # 日本\n22 # b\n## \n",
+    "F ← (\n  1 # a\n  22 ## \n)\n",
+    "1 ##\n  ##\n2 # c\n",
+    "[1 2\n 3 4] ##\n5 # c\n",
+    "1 2 3 ## 1\n      ## 2\n      ## 3\n4 # c\n",
+    "\"é✨\" # c\n1 ## \n",
+    "# # t\n1 # # t\n",
+    "#  x\n1 #  x\n",
+    "# ?t\n",
+    "#?\n# ? x\n",
+    "1 #! x\n# !y\n",
     "Abc ← 5\nAbc equals 3\n",
     "Abc ← 5\nAbc eq 3\n",
     "x ← 5\nx equals 3\n",
@@ -1782,6 +1807,7 @@ fn search(n: usize, seed: u64) {
     found.sort_by_key(|(i, _, _)| *i);
     // shrink + attribute + classify (sequential, deterministic); cap the work per presumptive key
     let mut ctx = Ctx::new(true);
+    let cap = arg_usize("--cap", 6);
     let mut per_key: BTreeMap<String, usize> = BTreeMap::new();
     let mut counts: BTreeMap<String, usize> = BTreeMap::new();
     let mut printed: Vec<(String, String)> = Vec::new();
@@ -1791,19 +1817,19 @@ fn search(n: usize, seed: u64) {
         let rough = format!("{}|{}|{}", v.kind, opt, if src.text.len() < 200 { construct(&src.text) } else { "big" });
         let c = per_key.entry(rough).or_default();
         *c += 1;
-        let small = if *c <= 6 { shrink(&mut ctx, &src.text, &acfg, v.kind) } else { src.text.clone() };
-        let (opt, acfg) = if *c <= 6 { attribute(&mut ctx, &small, &acfg, v.kind) } else { (opt, acfg) };
+        let small = if *c <= cap { shrink(&mut ctx, &src.text, &acfg, v.kind) } else { src.text.clone() };
+        let (opt, acfg) = if *c <= cap { attribute(&mut ctx, &small, &acfg, v.kind) } else { (opt, acfg) };
         let f1 = fmt(&small, &acfg).ok().and_then(|r| r.ok()).unwrap_or_default();
         let f2 = fmt(&f1, &acfg).ok().and_then(|r| r.ok()).unwrap_or_default();
         let kind_of_input = if v.kind == "idempotent" && only_positions_differ(&f1, &f2) { "output-comment-error-position" } else { construct(&small) };
         let key = format!("fmt:{}/{}", opt, kind_of_input);
         // unshrunk inputs (beyond the cap per presumed cause) are counted under their presumed cause only
-        if *c <= 6 {
+        if *c <= cap {
             *counts.entry(format!("{key} [{}]", v.kind)).or_default() += 1;
         } else {
             *counts.entry(format!("(not shrunk) fmt:{opt}/… [{}]", v.kind)).or_default() += 1;
         }
-        if *c > 6 || printed.contains(&(key.clone(), small.clone())) {
+        if *c > cap || printed.contains(&(key.clone(), small.clone())) {
             continue;
         }
         printed.push((key.clone(), small.clone()));
